@@ -115,14 +115,28 @@ def finish(prop, tier, stages, t0, assumptions, level="model_checking", extra_co
 
 
 def replay_file(prop, path, replayer="replay_parser"):
+    """re-executes one reported behaviour / re-validates one reported trace.  The kind of file decides the engine (a
+    check may contain stages of several engines): BEH / WBEH / TBEH / CBEH lines are replayed on the real library
+    built from the current tree, .ndjson traces are validated by the trace specification they came from."""
+    try:
+        head = open(path, errors="replace").readline()
+    except OSError as e:
+        raise Infra("cannot read %s: %s" % (path, e))
     if path.endswith(".ndjson"):
         odir = os.path.join(OUT, prop, "replay"); os.makedirs(odir, exist_ok=True)
-        mod = {"replay_parser": "TraceParser", "replay_writer": "TraceWriter", "replay_tostring": "TraceToString"}.get(replayer, "TraceParser")
+        mod = ("TraceWriter" if '"calls"' in head else "TraceToString" if '"runs"' in head else "TraceClass" if '"out"' in head else
+               "CallGraphTrace" if '"kind"' in head else "TraceParser")
+        if mod == "CallGraphTrace":
+            return REGISTRY["C17"]("C17", "quick", None)        # observed call stacks are re-recorded from the current tree
         viol, summ, tl = validate_trace(prop, mod + ".tla", mod + ".cfg", os.path.abspath(path), odir)
         for p, line, what in viol:
             print("VIOLATION property=%s replay=%s" % (p, path)); print("  detail: trace %s: %s" % (line, what))
         return 1 if viol else 0
-    bdir = vlib.build("asan", [replayer])
+    for pre, rp in (("WBEH", "replay_writer"), ("TBEH", "replay_tostring"), ("CBEH", "replay_class"), ("BEH", "replay_parser")):
+        if head.startswith(pre):
+            replayer = rp; break
+    cfgname = "asan-noprint" if "noprint-build" in path else "asan-noub" if "lookups-anywhere" in path else "asan"
+    bdir = vlib.build(cfgname, [replayer])
     odir = os.path.join(OUT, prop, "replay"); os.makedirs(odir, exist_ok=True)
     r = subprocess.run("%s/%s --prop %s --memprop %s --outdir %s --replay %s" % (bdir, replayer, prop, MEMPROP.get(replayer, "C01"), odir, path),
                        shell=True, env=_env())
@@ -405,7 +419,7 @@ EXTRA_STAGES = {
     "C16": {"quick": [("class-wrapper-family-documents", "MC_Class.tla", "MC_Class.cfg", dict(K=1, Sigma="SigmaC", Families="TRUE")),
                       ("hostile-lookups-anywhere", "MC_Safety.tla", "MC_Safety.cfg", _saf(2, 3, "MaxDs12", "SigmaTok", "FillsTwo", LookupsAnywhere="TRUE"))],
             "thorough": [("class-wrapper-k3", "MC_Class.tla", "MC_Class.cfg", dict(K=3, Sigma="SigmaC", Families="TRUE")),
-                         ("hostile-lookups-anywhere", "MC_Safety.tla", "MC_Safety.cfg", _saf(3, 3, "MaxDs12", "SigmaTok", "FillsTwo", LookupsAnywhere="TRUE"))]},
+                         ("hostile-lookups-anywhere", "MC_Safety.tla", "MC_Safety.cfg", _saf(3, 2, "MaxDs12", "SigmaTok", "FillsTwo", LookupsAnywhere="TRUE"))]},
     "C01": {"quick": [("nesting-limits", "MC_Verify.tla", "MC_Verify.cfg", dict(K=0, MaxDs="MaxDsDeep", Sigma="SigmaMid", Deep="TRUE")),
                       ("reuse-nav-values", "MC_Nav.tla", "MC_Nav.cfg", _nav(3, 3, "ValsMix", "NamesAB", "LookAB", "OpsReuse", "RootsOA")),
                       ("to_string-then-reuse", "MC_ToString.tla", "MC_ToString.cfg", _ts(2, 3, "ValsText", "NamesAB", "FALSE", "TRUE", "RootsOA", "Pres012"))],
